@@ -80,7 +80,7 @@ def derive_classes(meta, op, classes, phase, dname=""):
         cl.append("xbw_substr")
     if kind == "XBW" and op in ("locateRank", "extractRank"):
         cl.append("xbw_rank")
-    if "empty_pattern" in classes and ((op in ("locatePrefix", "extractPrefix") and kind in ("RPDAC", "FMINDEX", "XBW")) or
+    if "empty_pattern" in classes and ((op in ("locatePrefix", "extractPrefix") and kind in ("FMINDEX", "XBW")) or
                                        (op in ("locateSubstr", "extractSubstr") and kind == "FMINDEX")):
         cl.append("empty_search_pattern")
     return cl
